@@ -180,8 +180,11 @@ type Explorer struct {
 	Shard      int
 	ShardDepth int
 	NoBubble   bool
-	Deadline   time.Time
-	Run        func(x *X)
+	// LeaksMatter: a bubble that ends while goroutines are still blocked is a violation (only for properties
+	// that speak about goroutines and hangs); otherwise it is merely counted.
+	LeaksMatter bool
+	Deadline    time.Time
+	Run         func(x *X)
 
 	res      ShardResult
 	states   map[uint64]struct{}
@@ -383,7 +386,12 @@ func (e *Explorer) account(t *testing.T, x *X, pan any, stack string) {
 		e.notes[s]++
 	}
 	if pan != nil {
-		x.fails = append(x.fails, panicViolation(pan, stack))
+		if v := panicViolation(pan, stack); e.LeaksMatter || !strings.HasPrefix(v.Signature, "goroutines still blocked") {
+			x.fails = append(x.fails, v)
+		} else {
+			x.notes = append(x.notes, "goroutines still blocked at the end of an execution (not this property's concern)")
+			e.notes["goroutines still blocked at the end of an execution (not this property's concern)"]++
+		}
 	}
 	if len(e.res.Samples) < 3 && (x.sample != nil || len(x.logs) > 0) && len(x.nontriv) > 0 {
 		e.res.Samples = append(e.res.Samples, e.sampleOf(x))
@@ -397,7 +405,9 @@ func (e *Explorer) account(t *testing.T, x *X, pan any, stack string) {
 		y, _, pan2, _ := e.exec(t, picks(x.Trace), true)
 		e.res.Reruns++
 		if pan2 != nil {
-			y.fails = append(y.fails, panicViolation(pan2, ""))
+			if v := panicViolation(pan2, ""); e.LeaksMatter || !strings.HasPrefix(v.Signature, "goroutines still blocked") {
+				y.fails = append(y.fails, v)
+			}
 		}
 		if s2 := sigSet(y.fails); s2 != sigs {
 			e.res.HarnessErrs = append(e.res.HarnessErrs,
@@ -508,7 +518,9 @@ func (e *Explorer) ReplayOnce(t *testing.T, choices []int) (fails []*Violation, 
 	}
 	x, _, p, stack := e.exec(t, choices, true)
 	if p != nil {
-		x.fails = append(x.fails, panicViolation(p, stack))
+		if v := panicViolation(p, stack); e.LeaksMatter || !strings.HasPrefix(v.Signature, "goroutines still blocked") {
+			x.fails = append(x.fails, v)
+		}
 	}
 	return x.fails, x.logs, x.Trace, p
 }
